@@ -10,6 +10,10 @@ from .core import AnalysisError, src
 
 _TYPES = {'bool': bool, 'int': int, 'float': float, 'str': str, 'bytes': bytes, 'bytearray': bytearray, 'memoryview': memoryview,
           'list': list, 'tuple': tuple, 'dict': dict}
+import numbers as _numbers
+_TYPES.update({'numbers.Integral': _numbers.Integral, 'numbers.Number': _numbers.Number, 'numbers.Real': _numbers.Real, 'numbers.Rational': _numbers.Rational,
+               'Integral': _numbers.Integral, 'Number': _numbers.Number, 'collections.abc.Sequence': __import__('collections.abc').abc.Sequence,
+               'collections.abc.Mapping': __import__('collections.abc').abc.Mapping, 'object': object})
 
 
 class Unknown(Exception):
